@@ -21,10 +21,24 @@ def over_limit(o, i):
     return False
 
 
+def accepts_what_the_rfc_rejects(o, i, m):
+    """the reader handed out a frame at a point where the model reports an HTTP/2 error; the model's rejections are proved to be
+    the RFC's (C19.continuation_discipline, fixed_length_frames, short_frames, stream_zero_rules, window_update_nonzero,
+    parse_error_is_h2_error), so the input is a frame sequence the implementation wrongly accepts"""
+    if not o.startswith('frd '):
+        return False
+    it, mt = i.split(' '), m.split(' ')
+    for a, b in zip(it, mt):
+        if a != b:
+            return (b.startswith('err:conn') or b.startswith('err:stream')) and not a.startswith('err') and a != 'eof'
+    return False
+
+
 CFG = dict(
     streams=[('frame', 2500, 40000)],
     oracle_ops={'frt', 'frtmeta', 'frdspec'},
     self_evident=lambda o, i: 'panic' in i or over_limit(o, i),
+    spec_part=accepts_what_the_rfc_rejects,
     rule=("every Write* method with boundary parameters (stream ids 0, 1, 2^31-1, 2^31, 2^32-1; payloads 0..16384 bytes; padding "
           "0..255 and 256, non-zero pad bytes; priority with reserved bit; settings incl. INITIAL_WINDOW_SIZE 2^31; window increments "
           "0, 1, 2^31-1, 2^31; raw frames of every type 0..10 and 200 with arbitrary flags and short/odd lengths): written bytes "
